@@ -74,26 +74,33 @@ def main():
 
 
 def detect(meta, pid, extra, patch, src, dst):
-    # detection on /repo
-    subprocess.run(["git", "-C", "/repo", "apply", patch], check=True)
+    # detection: the checks run against a scratch worktree of /repo with the change applied (VERIF_REPO), so that /repo itself -
+    # which background runs and helper sessions read - is never modified; equivalent to `git -C /repo apply` + checks + checkout
+    D = "/tmp/mwdet"
+    subprocess.run(["git", "-C", "/repo", "worktree", "remove", "--force", D], capture_output=True)
+    subprocess.run(["git", "-C", "/repo", "worktree", "add", "--detach", D, "HEAD"], check=True, capture_output=True)
+    subprocess.run(["git", "-C", D, "apply", patch], check=True)
     det = {}
+    env = dict(os.environ, VERIF_REPO=D)
     try:
         for p in [pid] + extra:
             for tier in ("quick",):
                 t0 = time.time()
-                r = subprocess.run(["/verif/bin/check", p, tier], capture_output=True, text=True, cwd="/verif")
+                r = subprocess.run(["/verif/bin/check", p, tier], capture_output=True, text=True, cwd="/verif", env=env)
                 v = [l for l in r.stdout.split("\n") if l.startswith("VIOLATION")]
                 first = [l for l in r.stderr.split("\n") if l.startswith("violation:")][:2]
                 det["%s %s" % (p, tier)] = {"exit": r.returncode, "violation_line": v[:1], "first": [x[:400] for x in first], "wall_s": round(time.time() - t0)}
                 print(" ", p, tier, r.returncode, (first[0][:200] if first else ""))
     finally:
-        subprocess.run(["git", "-C", "/repo", "checkout", "--", "."], check=True)
-        subprocess.run(["git", "-C", "/repo", "clean", "-fdq"], check=True)
-        # the generated Lean facts must not stay behind from the changed tree
+        subprocess.run(["git", "-C", "/repo", "worktree", "remove", "--force", D], capture_output=True)
+        # harness module, generated Lean facts and evidence must not stay behind from the changed tree
+        subprocess.run(["git", "-C", "/verif", "checkout", "--", "harness/go.mod", "evidence"], capture_output=True)
         subprocess.run(["/verif/harness/bin/extract", "/repo", "/verif/lean/XixiKV/Generated"], capture_output=True)
         subprocess.run(["/verif/harness/bin/trans", "/repo", "/verif/lean/XixiKV/Generated/Trans.lean"], capture_output=True)
+        subprocess.run("cd /verif/harness && cp /repo/go.sum go.sum && go build -tags verif -o bin/xkv ./cmd/xkv && go build -tags verif -race -o bin/xkv-race ./cmd/xkv",
+                       shell=True, env=ENV, capture_output=True)
     meta["detection"] = det
-    meta["ran"].append("git -C /repo apply patch.diff; bin/check <id> quick; git -C /repo checkout -- .")
+    meta["ran"].append("scratch worktree of /repo HEAD + git apply patch.diff; VERIF_REPO=<worktree> bin/check <id> quick; worktree removed")
     os.makedirs(dst, exist_ok=True)
     shutil.copy(patch, os.path.join(dst, "patch.diff"))
     for f in os.listdir(src):
